@@ -244,7 +244,46 @@ def gen_C14():
     return out
 
 
-GENERATORS = {"C06": gen_C06, "C07": gen_C07, "C14": gen_C14}
+def gen_C20():
+    """the try / except structure of ConformalElectionModel.fit_model: arguments of the first solve and of the retry, exceptions caught"""
+    src, tree = _parse("models/ConformalElectionModel.py")
+    fn = _find(tree, "ConformalElectionModel", "fit_model")
+    tries = [n for n in ast.walk(fn) if isinstance(n, ast.Try)]
+    if len(tries) != 1 or len(tries[0].handlers) != 1:
+        raise TranslateError("fit_model: expected exactly one try with one except clause")
+    t = tries[0]
+
+    def fit_call(stmts):
+        calls = [n for st in stmts for n in ast.walk(st) if isinstance(n, ast.Call) and ast.unparse(n.func) == "model.fit"]
+        if len(calls) != 1:
+            raise TranslateError("fit_model: expected exactly one model.fit call per branch")
+        c = calls[0]
+        return [ast.unparse(a) for a in c.args], sorted((k.arg, ast.unparse(k.value)) for k in c.keywords)
+
+    a1, k1 = fit_call(t.body)
+    a2, k2 = fit_call(t.handlers[0].body)
+    h = t.handlers[0].type
+    caught = sorted(ast.unparse(e) for e in (h.elts if isinstance(h, ast.Tuple) else [h]))
+    filt = [ast.unparse(n) for n in tree.body if isinstance(n, ast.Expr) and isinstance(n.value, ast.Call)
+            and ast.unparse(n.value.func) == "warnings.filterwarnings"]
+
+    def strs(l):
+        return "[" + ", ".join('"' + x.replace('"', "'") + '"' for x in l) + "]"
+
+    def pairs(l):
+        return "[" + ", ".join(f'("{a}", "{b}")' for a, b in l) + "]"
+
+    return [
+        f"def first_args : List String := {strs(a1)}\n",
+        f"def first_kw : List (String × String) := {pairs(k1)}\n",
+        f"def retry_args : List String := {strs(a2)}\n",
+        f"def retry_kw : List (String × String) := {pairs(k2)}\n",
+        f"def caught : List String := {strs(caught)}\n",
+        f"def warning_filters : List String := {strs(filt)}\n",
+    ]
+
+
+GENERATORS = {"C06": gen_C06, "C07": gen_C07, "C14": gen_C14, "C20": gen_C20}
 
 HEADER = """import ElexModel.Core.Num
 /-! GENERATED by harness/extract.py from /repo/src on every check run. Do not edit. -/
